@@ -30,9 +30,18 @@ pub const HOSTS: &[(&str, &str, &str)] = &[
     ("(?<![\\s\\S]{99})E[0-9]{0}", "(?<![\\s\\S]{99})", "[0-9]{0}"),
     // free-spacing mode: only for strings without whitespace (which that mode ignores)
     ("(?x:E)", "(?x:", ")"),
+    // built with RegexBuilder::case_insensitive(true): the inner (?-i:..) switches it off again, so the
+    // escaped text still has to be found exactly as written (VM form; VM form with E in a delegated piece; plain form)
+    ("ci-builder: (?-i:E)(?=)", "(?-i:", ")(?=)"),
+    ("ci-builder: (?=)(?-i:[a-z]{0}E[0-9]{0})", "(?=)(?-i:[a-z]{0}", "[0-9]{0})"),
+    ("ci-builder: (?-i:E)", "(?-i:", ")"),
 ];
 
 const X_HOST: usize = 11;
+
+fn swap_case(s: &str) -> String {
+    s.chars().map(|c| if c.is_lowercase() { c.to_uppercase().next().unwrap_or(c) } else if c.is_uppercase() { c.to_lowercase().next().unwrap_or(c) } else { c }).collect()
+}
 
 fn host_pattern(host: usize, e: &str) -> String {
     match HOSTS[host].0 {
@@ -56,6 +65,12 @@ fn texts_for(s: &str) -> Vec<String> {
         let dropped: String = d.iter().collect();
         v.push(format!("{}{}", dropped, s));
         v.push(miss);
+    }
+    // an occurrence that differs by case only must not be taken
+    let sw = swap_case(s);
+    if sw != s {
+        v.push(format!("{}-{}", sw, s));
+        v.push(sw);
     }
     v.push(String::new());
     v.push("\\".to_string());
@@ -101,7 +116,14 @@ pub fn check_string(s: &str, hosts: &[usize]) -> Result<Info, (usize, String, Fa
             continue;
         }
         let pat = host_pattern(h, &e);
-        let re = match engine::build(&pat) {
+        let built = if HOSTS[h].0.starts_with("ci-builder") {
+            engine::build_with(&pat, |b| {
+                b.case_insensitive(true);
+            })
+        } else {
+            engine::build(&pat)
+        };
+        let re = match built {
             Built::Ok(r) => r,
             Built::Err(err) => return Err((h, String::new(), Fail::new("compile-error", "Ok", format!("{} for pattern {:?}", engine::err_kind(&err), pat)))),
             Built::Panic(p) => return Err((h, String::new(), Fail::new("panic", "Ok", format!("PANIC({}) for pattern {:?}", p, pat)))),
@@ -125,6 +147,59 @@ pub fn check_string(s: &str, hosts: &[usize]) -> Result<Info, (usize, String, Fa
         }
     }
     Ok(Info { nontrivial, class: if needs { "string:has-meta-character" } else { "string:plain" } })
+}
+
+/// alphabet of the pair stage: meta-characters that change the length of the escaped form, letters, a multi-byte character
+pub const PAIR_ALPHA: &[char] = &['.', '+', '(', '|', '\\', '$', '#', '-', ' ', 'a', 'b', 'é', '!'];
+
+/// Two escaped strings as the alternatives of one fancy host. `(?<=E1|E2)!` finds the first `!` that directly
+/// follows a literal occurrence of either; `(?:E1|E2)(?=!)` finds, at the leftmost position where one of them is
+/// followed by `!`, the first such alternative (the second alternative has to be retried when the look-ahead fails
+/// after the first). Returns the number of non-trivial comparisons.
+pub fn check_pair(s1: &str, s2: &str) -> Result<u32, (String, String, Fail)> {
+    let (e1, e2) = (escape(s1), escape(s2));
+    let mut texts: Vec<String> = vec![
+        format!("{}!", s1), format!("{}!", s2), format!("x{}!{}!", s2, s1), format!("{}{}!", s1, s2), format!("{}{}!", s2, s1),
+        format!("{}-{}!", s1, s2), format!("{}-{}!", s2, s1), format!("!{}", s1), format!("é{}!", s2), String::new(),
+    ];
+    for s in [s1, s2] {
+        // the string with its first / last character dropped in front of the `!`, then the real thing
+        let cs: Vec<char> = s.chars().collect();
+        if cs.len() >= 1 {
+            let head: String = cs[..cs.len() - 1].iter().collect();
+            let tail: String = cs[1..].iter().collect();
+            texts.push(format!("{}! {}!", head, s));
+            texts.push(format!("{}! {}!", tail, s));
+        }
+    }
+    let mut nontrivial = 0;
+    let lb = format!("(?<={}|{})!", e1, e2);
+    let la = format!("(?:{}|{})(?=!)", e1, e2);
+    let lbn = format!("(?<!{}|{})!", e1, e2);
+    for (pat, which) in [(&lb, 0), (&la, 1), (&lbn, 2)] {
+        let re = match engine::build(pat) {
+            Built::Ok(r) => r,
+            Built::Err(err) => return Err((pat.clone(), String::new(), Fail::new("compile-error", "Ok (every alternative is a literal of fixed length)", format!("{} for pattern {:?}", engine::err_kind(&err), pat)))),
+            Built::Panic(p) => return Err((pat.clone(), String::new(), Fail::new("panic", "Ok", format!("PANIC({}) for pattern {:?}", p, pat)))),
+        };
+        for t in &texts {
+            let want = match which {
+                0 => t.match_indices('!').map(|(i, _)| i).find(|&i| t[..i].ends_with(s1) || t[..i].ends_with(s2)).map(|i| (i, i + 1)),
+                2 => t.match_indices('!').map(|(i, _)| i).find(|&i| !(t[..i].ends_with(s1) || t[..i].ends_with(s2))).map(|i| (i, i + 1)),
+                _ => t.char_indices().map(|(i, _)| i).chain(std::iter::once(t.len())).find_map(|i| {
+                    [s1, s2].iter().find(|s| t[i..].starts_with(**s) && t[i + s.len()..].starts_with('!')).map(|s| (i, i + s.len()))
+                }),
+            };
+            let got = engine::find_from_pos(&re, t, 0);
+            if got != engine::Out::Val(want) {
+                return Err((pat.clone(), t.clone(), Fail::new("find-pair", format!("{:?} (computed with str methods)", want), format!("{} with pattern {:?}", got.show(), pat))));
+            }
+            if want.is_some() && s1.chars().count() != s2.chars().count() {
+                nontrivial += 1;
+            }
+        }
+    }
+    Ok(nontrivial)
 }
 
 fn random_string(bytes: &[u8]) -> String {
@@ -163,9 +238,9 @@ fn violation(s: &str, hosts: &[usize], f: Fail) -> Violation {
 
 pub fn run(ctx: &RunCtx) -> Outcome {
     let mut o = Outcome::default();
-    o.rule = format!("strings: every string of length <= L over {} characters (all regex meta-characters, - & ~ # space newline tab , : < > = ! ', the letters that form escapes after a backslash, digits, é € 😀) exhaustively, plus proptest strings of length 4..12; each escaped and embedded in {} host patterns (bare, (?=)E, (?:E), (?>E), (E), (?=E)E, E(?<=E), (?-i:E), (?:E|(?!)), two hosts that put E into one delegated piece together with empty-matching class repeats, and (?x:E) for whitespace-free strings) that cannot change what E matches. Oracle: the host compiles; on texts built from the string (itself, embedded after a multi-byte prefix, doubled, near misses with one character changed or dropped) find == str::find; escape borrows iff nothing needed escaping and only inserts backslashes before special characters. Non-trivial = the string has a meta-character and occurs at an offset > 0. Distinct = distinct (string, host, text).", ALPHA.len(), HOSTS.len());
+    o.rule = format!("strings: every string of length <= L over {} characters (all regex meta-characters, - & ~ # space newline tab , : < > = ! ', the letters that form escapes after a backslash, digits, é € 😀) exhaustively, plus proptest strings of length 4..12; each escaped and embedded in {} host patterns (bare, (?=)E, (?:E), (?>E), (E), (?=E)E, E(?<=E), (?-i:E), (?:E|(?!)), two hosts that put E into one delegated piece together with empty-matching class repeats, (?x:E) for whitespace-free strings, and three hosts built with RegexBuilder::case_insensitive(true) around (?-i:E)) that cannot change what E matches; pair stage: every ordered pair of non-empty strings of length <= 2 (thorough: first <= 3) over the characters . + ( | \\ $ # - space a b é ! as the two alternatives of (?<=E1|E2)!, (?<!E1|E2)! and (?:E1|E2)(?=!), expected spans computed with str methods. Oracle: the host compiles; on texts built from the string (itself, embedded after a multi-byte prefix, doubled, near misses with one character changed or dropped, a case-swapped occurrence in front) find == str::find; escape borrows iff nothing needed escaping and only inserts backslashes before special characters. Non-trivial = the string has a meta-character and occurs at an offset > 0. Distinct = distinct (string, host, text).", ALPHA.len(), HOSTS.len());
     o.assumptions = vec!["oracle: str::find".into()];
-    o.required_classes = vec!["string:has-meta-character".into(), "string:plain".into()];
+    o.required_classes = vec!["string:has-meta-character".into(), "string:plain".into(), "pair:longer-first".into(), "pair:shorter-first".into()];
     let all_hosts: Vec<usize> = (0..HOSTS.len()).collect();
     let maxlen = if ctx.quick() { 3 } else { 4 };
     let strings = crate::gen::texts(ALPHA, maxlen);
@@ -177,7 +252,7 @@ pub fn run(ctx: &RunCtx) -> Outcome {
                 return st;
             }
             // the longest strings go through three hosts only (bare, VM-forcing, look-behind)
-            let hosts: &[usize] = if s.chars().count() >= 3 && ctx.quick() || s.chars().count() >= 4 { &[0, 1, 6, 9, 11] } else { &all_hosts };
+            let hosts: &[usize] = if s.chars().count() >= 3 && ctx.quick() || s.chars().count() >= 4 { &[0, 1, 6, 9, 11, 13] } else { &all_hosts };
             st.evaluations += (hosts.len() * (3 + 3 * s.chars().count() + 2)) as u64;
             st.patterns += 1;
             match check_string(s, hosts) {
@@ -203,6 +278,42 @@ pub fn run(ctx: &RunCtx) -> Outcome {
     f.sort_by_key(|x| x.0.len());
     if let Some((s, fail)) = f.into_iter().next() {
         o.violations.push(violation(&s, &all_hosts, fail));
+        return o;
+    }
+    // pair stage: two escaped strings as alternatives of a look-behind / in front of a look-ahead
+    let pstrings = crate::gen::texts(PAIR_ALPHA, if ctx.quick() { 2 } else { 3 });
+    let pstrings: Vec<&String> = pstrings.iter().filter(|s| !s.is_empty()).collect();
+    let second: Vec<&String> = if ctx.quick() { pstrings.clone() } else { pstrings.iter().filter(|s| s.chars().count() <= 2).cloned().collect() };
+    let pfound: std::sync::Mutex<Vec<(String, String, (String, String, Fail))>> = std::sync::Mutex::new(vec![]);
+    let pstats = pstrings
+        .par_iter()
+        .fold(Stats::default, |mut st, s1| {
+            for s2 in &second {
+                if !pfound.lock().unwrap().is_empty() {
+                    return st;
+                }
+                st.evaluations += 3 * 14;
+                st.patterns += 1;
+                match check_pair(s1, s2) {
+                    Ok(nt) => {
+                        st.class(if s1.chars().count() > s2.chars().count() { "pair:longer-first" } else if s1.chars().count() < s2.chars().count() { "pair:shorter-first" } else { "pair:same-length" });
+                        st.nontrivial_add(hash64(&(s1, s2)), nt);
+                    }
+                    Err(e) => pfound.lock().unwrap().push((s1.to_string(), s2.to_string(), e)),
+                }
+            }
+            st
+        })
+        .reduce(Stats::default, |mut a, b| {
+            a.merge(b);
+            a
+        });
+    o.stats.merge(pstats);
+    o.generators.push(json!({"mode": "exhaustive pairs", "first": pstrings.len(), "second": second.len(), "hosts": ["(?<=E1|E2)!", "(?<!E1|E2)!", "(?:E1|E2)(?=!)"]}));
+    let mut pf = pfound.into_inner().unwrap();
+    pf.sort_by_key(|x| x.0.len() + x.1.len());
+    if let Some((s1, s2, (pat, t, fail))) = pf.into_iter().next() {
+        o.violations.push(Violation { case: json!({"pair": [s1, s2], "pattern": pat, "text": t}), fail });
         return o;
     }
     let cases: u32 = if ctx.quick() { 30_000 } else { 400_000 };
@@ -258,6 +369,11 @@ pub fn run(ctx: &RunCtx) -> Outcome {
 }
 
 pub fn replay(_ctx: &RunCtx, case: &Value) -> Result<Option<Fail>, String> {
+    if let Some(p) = case.get("pair").and_then(|x| x.as_array()) {
+        let s1 = p.first().and_then(|x| x.as_str()).ok_or("no pair")?;
+        let s2 = p.get(1).and_then(|x| x.as_str()).ok_or("no pair")?;
+        return Ok(check_pair(s1, s2).err().map(|(_, _, f)| f));
+    }
     let s = case.get("string").and_then(|x| x.as_str()).ok_or("no string")?;
     let all_hosts: Vec<usize> = (0..HOSTS.len()).collect();
     Ok(check_string(s, &all_hosts).err().map(|(_, _, f)| f))
